@@ -153,7 +153,12 @@ def check_pipeline(spec):
     if spec.get("decoy") == "before":
         decoy()
     if how == "compose":
-        pipe = KC.KDComposeCollator(colls, dataset_mode=mode_str, return_ctx=spec["return_ctx"])
+        if spec.get("late") and len(colls) >= 2:
+            # the pipeline is assembled step by step: the last member is appended to the public list after construction
+            pipe = KC.KDComposeCollator(colls[:-1], dataset_mode=mode_str, return_ctx=spec["return_ctx"])
+            pipe.collators.append(colls[-1])
+        else:
+            pipe = KC.KDComposeCollator(colls, dataset_mode=mode_str, return_ctx=spec["return_ctx"])
     elif how == "single":
         pipe = colls[0]
         pipe.dataset_mode, pipe.return_ctx = mode_str, spec["return_ctx"]
@@ -285,6 +290,12 @@ def check_padding(spec):
                 vals.append(torch.arange(L, dtype=torch.float32) + b + 1 + j)
             elif kind == "seq2":
                 vals.append(torch.ones(L + j, 2) * (b + 1))
+            elif kind == "seq3":
+                vals.append(torch.ones(L, 2, 3) * (b + 1) + j)  # clips: variable length in front of two fixed axes
+            elif kind == "seq4":
+                vals.append(torch.ones(L + 1, 1, 2, 2) * (b + 2))
+            elif kind == "pyfloat":
+                vals.append(b * 0.1 + 1.0 / 3.0)  # a plain python float (regression target): default collation makes it float64
             elif kind == "scalar_t":
                 vals.append(torch.tensor(float(b)))
             else:
@@ -309,7 +320,7 @@ def check_padding(spec):
     for j, kind in enumerate(items):
         col = [r[j] for r in raw]
         f = fields[j]
-        if kind in ("seq", "seq2"):
+        if kind in ("seq", "seq2", "seq3", "seq4"):
             mx = max(c.shape[0] for c in col)
             if not torch.is_tensor(f) or f.shape[0] != B or f.shape[1] != mx:
                 raise Violation("padding:not-padded-to-batch-maximum", f"field {j}: {getattr(f, 'shape', type(f))}, max length {mx}")
@@ -320,8 +331,9 @@ def check_padding(spec):
                     raise Violation("padding:pad-value-not-zero", f"field {j} sample {b}")
         else:
             exp = default_collate(col)
-            if not _struct_eq(f, exp):
-                raise Violation("padding:other-field-differs-from-default-collate", f"field {j}: {f} vs {exp}")
+            if not _struct_eq(f, exp) or (torch.is_tensor(exp) and (not torch.is_tensor(f) or f.dtype != exp.dtype or not torch.equal(f, exp))):
+                raise Violation("padding:other-field-differs-from-default-collate", f"field {j}: {f} vs {exp}"
+                                                                                    f"{' (dtype ' + str(f.dtype) + ' vs ' + str(exp.dtype) + ')' if torch.is_tensor(f) and torch.is_tensor(exp) else ''}")
     nt = len(items) == 1 or len(set(lens)) >= 3
     return Case(nt, [via if spec["ctx"] else "noctx", "items=%d" % len(items)])
 
@@ -336,14 +348,14 @@ PIPE = st.fixed_dictionaries({
                                         [None, None, "after", "before"], ["after", "before", "before"], [None, None]])),
     "return_ctx": st.booleans(),
     "ctx_keys": st.lists(st.sampled_from(["a", "b", "view0"]), max_size=2, unique=True),
-    "how": st.sampled_from(["compose", "compose", "compose", "single", "wrapper"]),
+    "how": st.sampled_from(["compose", "compose", "compose", "single", "wrapper"]), "late": st.booleans(),
     "silent": st.booleans(), "decoy": st.sampled_from([None, "before", "after"]),
 })
 SHIPPED = st.fixed_dictionaries({"B": st.integers(2, 6), "colls": st.lists(st.sampled_from(["mix", "dino"]), min_size=1, max_size=3),
                                  "seed": st.integers(0, 999)})
 PAD = st.fixed_dictionaries({
     "lens": st.lists(st.integers(1, 7), min_size=1, max_size=6),
-    "items": st.lists(st.sampled_from(["seq", "seq", "seq2", "scalar_t", "int"]), min_size=1, max_size=4),
+    "items": st.lists(st.sampled_from(["seq", "seq", "seq2", "seq3", "seq4", "scalar_t", "int", "pyfloat"]), min_size=1, max_size=4),
     "ctx": st.booleans(), "via": st.sampled_from(["compose_ctx", "collator_ctx"]),
 })
 
